@@ -176,4 +176,45 @@ theorem C02_fixed_point_bytes (tokens : Str → List Tok) (law : TokLaw tokens) 
     unfold Val.equiv at hv hxe ⊢
     simp only [norm_singleton_map, hv, hxe]
 
+/-! ### `AnyXml`: bytes = rendering of its tree -/
+
+theorem C02_anyXml_eq_render (cfg : EncCfg) (v : Val) (rt et : Str) (hp : Plain cfg v = true) :
+    anyXml cfg v rt et = (anyTree cfg v rt et).map (fun ns => ns.flatMap (render cfg)) :=
+  anyXml_eq_render cfg v rt et hp
+
+/-! ### non-vacuity -/
+
+/-- a `Strconv` (unused: the cast flag is off) -/
+def S0 : Strconv :=
+  { parseInt := fun _ => none, parseUint := fun _ => none, parseFloat := fun _ => none, lower := id }
+
+/-- `<a x=" 1 ">␤  <b> t<u </b>␤  <b/><c k="v">w<d/></c></a>` -/
+def sampleTree : Node :=
+  .elem [] "a".toList [⟨[], "x".toList, " 1 ".toList⟩]
+    [.text "\n  ".toList, .elem [] "b".toList [] [.text " t<u ".toList], .text "\n  ".toList,
+     .elem [] "b".toList [] [],
+     .elem [] "c".toList [⟨[], "k".toList, "v".toList⟩] [.text "w".toList, .elem [] "d".toList [] []]]
+
+example : Conv.inDomain dc S0 sampleTree = true := by decide
+example : NamesOk sampleTree = true := by decide
+example : noAdjText sampleTree = true := by decide
+
+/-- the Map of the document … -/
+def sampleMap : Val :=
+  .map [("-x".toList, .str " 1 ".toList),
+        ("b".toList, .list [.str "t<u".toList, .str []]),
+        ("c".toList, .map [("-k".toList, .str "v".toList), ("d".toList, .str []),
+                           ("#text".toList, .str "w".toList)])]
+
+example : Conv.doc dc S0 sampleTree = .map [("a".toList, sampleMap)] := by decide
+example : Decoded sampleMap = true := by decide
+
+/-- … its bytes (`mv.Xml()`, escaping on) … -/
+example : mapXml ec [("a".toList, sampleMap)] none
+    = .ok "<a x=\" 1 \"><b>t&lt;u</b><b/><c k=\"v\">w<d/></c></a>".toList := by rfl
+
+/-- … the tree of those bytes is well-named, and decoding it gives the same Map again -/
+example : ∃ n, encTree ec "a".toList sampleMap.norm = .ok [n] ∧ WellNamed n = true
+    ∧ Conv.doc dc S0 n = .map [("a".toList, sampleMap)] := ⟨_, rfl, by decide, by decide⟩
+
 end Mxj.C02
